@@ -216,6 +216,8 @@ func cmdSemGen(args []string) {
 		normNums(g.Stmts)
 		c := &Case{ID: written + dropped, Corpus: "family", Decls: []any{}, Stmts: g.Stmts, VarVals: map[string]J{}, RawVars: map[string]string{}, Bal: g.Bal,
 			Meta: map[string]map[string]string{}}
+		// the family has no overdraft() origin: the feature flag must change nothing, so it is on for every other member
+		c.FlagOvd = (written+dropped)%2 == 1
 		c.Text = printProgram(c.Decls, c.Stmts)
 		er := execCase(c)
 		if er.dropped != "" {
